@@ -318,6 +318,7 @@ def install(scheduler: S.Scheduler):
     trio_run_module._ALLOW_DETERMINISTIC_SCHEDULING = True
     trio_run_module.Deadlines.add = _deadlines_add
     _deadline_counter[0] = 0
+    S.AThread._cosched_counter[0] = 0
     trio_threads._send_message_to_trio = _send_message_to_trio
     threading.excepthook = lambda args: None
     asyncio.set_event_loop_policy(VPolicy())
